@@ -149,8 +149,12 @@ class TextObject:
         """
         from_, to = self.operator_range(buffer.document)
 
-        # An empty range (failed motion, empty text object) cuts nothing.
-        if self.type != TextObjectType.LINEWISE and from_ >= to:
+        # An empty range (failed motion, empty text object) cuts nothing. (A
+        # block object always covers at least the cell under the cursor.)
+        if (
+            self.type not in (TextObjectType.LINEWISE, TextObjectType.BLOCK)
+            and from_ >= to
+        ):
             return (
                 Document(buffer.text, buffer.cursor_position),
                 ClipboardData("", self.selection_type),
